@@ -493,7 +493,7 @@ def prefix_seek_statement : Prop :=
   ∀ (m : Ref) (p : Bytes) (c : Cursor) (k : Bound), p ≠ [] → c.rev = false →
     (seekView refI m p c k).1.rest = Ref.iter (restrict p m) k c.e
 
-/-- FALSE of the current code (finding prefixdb-seek-no-effect): `prefixIterator.Seek` has a value receiver, the caller's iterator
+/-- FALSE of the current code (KNOWN FINDING prefix-seek-no-effect): `prefixIterator.Seek` has a value receiver, the caller's iterator
 is not moved at all: view {01, 03}, a fresh iterator, Seek(03), and the next item is still 01 -/
 theorem prefix_seek_counterexample : ¬ prefix_seek_statement := by
   intro h
@@ -506,10 +506,50 @@ theorem prefix_seek_counterexample : ¬ prefix_seek_statement := by
 theorem prefix_seek_partial {σ : Type} (I : DBI σ) (db : σ) (p : Bytes) (c : Cursor) (k : Bound) :
     (seekView I db p c k).1 = c := rfl
 
-/-- badger: `Seek` with the empty key on a reverse iterator rewinds (finding bdg-seek-empty-reverse), although the constructor
-treats the same start as "nothing at or below it" -/
-theorem bdg_seek_empty_reverse (m : Ref) (e : Bound) :
-    bdgI.seekR m (some []) e = Ref.riter m none e ∧ bdgI.riter m (some []) e = [] := ⟨rfl, rfl⟩
+/-- ALL FOUR ADAPTERS' `Seek` AGREE (86092ca included: badger's Seek with the empty key on a reverse iterator is invalid, like its
+constructor): on related stores - `Sim db ref` for memdb, the reference itself for goleveldb and bolt, a sorted reference without the
+empty key for badger (it cannot hold one) - `Seek(k)` leaves every adapter's iterator with the same items, the same `Domain()` and
+the same answer, for every key incl. nil and the empty key, forward and reverse -/
+theorem seek_adapters_agree {db : MemDB} {ref : Ref} (h : Sim db ref) (h0 : NoEmpty ref) (c : Cursor) (k : Bound) :
+    seekStore memI db c k = seekStore refI ref c k ∧
+    seekStore ldbI ref c k = seekStore refI ref c k ∧
+    seekStore bdgI ref c k = seekStore refI ref c k := by
+  refine ⟨?_, rfl, ?_⟩
+  · unfold seekStore
+    cases hc : c.rev with
+    | false =>
+      have : memI.iter db k c.e = refI.iter ref k c.e := memdb_iter_spec h k c.e
+      simp [this]
+    | true =>
+      have : memI.riter db k c.e = refI.riter ref k c.e := memdb_riter_spec h k c.e
+      simp [this]
+  · unfold seekStore
+    cases hc : c.rev with
+    | false => rfl
+    | true =>
+      have : bdgI.riter ref k c.e = refI.riter ref k c.e := bdg_riter_eq_ref h.sorted h0 k c.e
+      simp [this]
+
+/-- the empty key on a reverse iterator: nothing at or below it, on every adapter -/
+example : (seekStore bdgI [([1], [1]), ([3], [3])] { rest := [([3], [3])], s := none, e := none, rev := true } (some [])).1.rest = []
+    ∧ (seekStore refI [([1], [1]), ([3], [3])] { rest := [([3], [3])], s := none, e := none, rev := true } (some [])).1.rest = [] := by decide
+
+/-- FULL STATEMENT: nothing of a batch is visible before `Write`, whatever its size -/
+def big_batch_atomic_statement : Prop := ∀ (e : Engine) (n : Nat), bigBatchEarly e n = 0
+
+/-- FALSE of the current code (KNOWN FINDING big-batch-split): 100001 ops on bolt, 40000 on badger -/
+theorem big_batch_atomic_counterexample : ¬ big_batch_atomic_statement := by
+  intro h
+  have := h .bdg 40000
+  revert this
+  decide
+
+/-- PARTIAL: memBatch and goleveldb at every size; bolt up to 100000 ops; badger below the pinned 40000 -/
+theorem big_batch_atomic_partial (n : Nat) :
+    bigBatchEarly .mem n = 0 ∧ bigBatchEarly .ldb n = 0 ∧ (n ≤ 100000 → bigBatchEarly .bolt n = 0) ∧ (n < 40000 → bigBatchEarly .bdg n = 0) := by
+  refine ⟨rfl, rfl, ?_, ?_⟩
+  · intro hn; simp [bigBatchEarly]; omega
+  · intro hn; simp [bigBatchEarly]; omega
 
 /-- `ValueSize()`: 0 after Reset on every adapter; memBatch counts the bytes of the values (+1 per delete) -/
 theorem valueSize_reset (e : Engine) (sz : Nat) : e.valueSize sz .reset = 0 := rfl
@@ -520,7 +560,8 @@ least the number of value bytes queued -/
 def valuesize_counts_bytes_statement : Prop :=
   ∀ (e : Engine) (sz n : Nat), sz + n ≤ e.valueSize sz (.set n)
 
-/-- FALSE (finding valuesize-not-bytes): goleveldb never counts (always 0), bolt and badger count ops -/
+/-- FALSE - a fact about the adapters, NOT a clause of C19 (a flush-threshold/performance matter, recorded as an observation):
+goleveldb never counts (always 0), bolt and badger count ops -/
 theorem valuesize_counts_bytes_counterexample : ¬ valuesize_counts_bytes_statement := by
   intro h
   have := h .ldb 0 1
